@@ -92,13 +92,18 @@ def _r1(ctx):
     _name_reads_in_nf(ctx, f, "reader")
     ctx.floor("R1", "register-change look-ups in is_memload", len(gets), 2)
     change_vars = {}
+    fl = C.flow_of(f)
     for c in gets:
-        key = nf_of(c.args[0])
+        karg = fl.subst(c.args[0]) if isinstance(c.args[0], ast.Name) else c.args[0]
+        key = nf_of(karg)
         dflt = pm.match('{"name": M_n, "value": 0}', c.args[1])
-        dkey = nf_of(dflt["M_n"]) if dflt else None
+        darg = (fl.subst(dflt["M_n"]) if isinstance(dflt["M_n"], ast.Name) else dflt["M_n"]) if dflt else None
+        dkey = nf_of(darg) if darg is not None else None
         good = key is not None and dkey == key
         if good:
             ctx.node_ok("R1", f, c, "look-up key and default name both normal form of %s" % key)
+        elif isinstance(karg, ast.Name) or (darg is not None and isinstance(darg, ast.Name)):
+            ctx.unknown("R1", U(c), f.where(c), "the look-up key is a local the rule cannot resolve to one expression")
         else:
             ctx.node_bad("R1", f, c, "look-up key / default entry of the register-change state is not "
                          "(prefix or '') + name of one register (key: %s, default name: %s)" % (key, dkey))
@@ -123,6 +128,11 @@ def _r1(ctx):
                         good_cmp = n
         if good_cmp is not None:
             ctx.node_ok("R1", f, good_cmp, "identity test of store %s against the tracked name" % field)
+        elif not mixed and any(isinstance(n, ast.Compare) and any(U(s).endswith("['name']") for s in [n.left] + n.comparators)
+                               and any(nf_of(s) == "%s.%s" % (mem, field) for s in [n.left] + n.comparators)
+                               for n in ast.walk(f.node)):
+            ctx.unknown("R1", "identity comparison for %s" % field, f.where(),
+                        "the store's %s register is compared with a tracked name, but not in the form `if NF != chg['name']: continue`" % field)
         elif not mixed:
             ctx.bad("R1", "identity comparison for %s" % field, f.where(),
                     "no test `full name of %s.%s != %s['name'] -> skip` found: the store's %s register is not "
